@@ -3065,7 +3065,14 @@ where
         // We cannot use result of `peek()` directly because of borrow checker
         let _ = self.peek()?;
         match self.last_peeked() {
-            DeEvent::Text(t) if t.is_empty() => visitor.visit_none(),
+            DeEvent::Text(t) if t.is_empty() => {
+                // The empty text (it can be produced only by an empty CDATA section)
+                // is the representation of `None`, so it must be consumed. Otherwise
+                // a top-level sequence of `Option`s would see it again and again
+                // and never ends
+                self.next()?;
+                visitor.visit_none()
+            }
             DeEvent::Eof => visitor.visit_none(),
             // if the `xsi:nil` attribute is set to true we got a none value
             DeEvent::Start(start) if self.reader.reader.has_nil_attr(&start) => {
